@@ -17,7 +17,7 @@ CLAUSES = {
             'library_crashed_before_first_snapshot_of_new_stream'},
     'C13': {'lost_wakeup_tick_reported_running_but_no_notify_followed', 'push_did_not_notify', 'push_notified_before_item_visible'},
     'C19': {'changed_false_but_snapshot_differs', 'running_false_but_completed_push_missing', 'running_false_but_pattern_stale'},
-    'C20': {'active_injectors_wrong'},
+    'C20': {'active_injectors_wrong', 'panic_while_reading_snapshot_or_handle_count'},
     'C11': {'item_dropped_while_injector_alive', 'item_of_current_stream_dropped_while_matcher_alive', 'item_dropped_while_snapshot_shows_it',
             'item_dropped_twice', 'item_leaked_or_invented'},
 }
@@ -133,8 +133,15 @@ def main(prop):
         sdir = os.path.join(wd, 'scale')
         import shutil as _sh
         _sh.rmtree(sdir, ignore_errors=True)
-        p = nvh(['worker-order', '--tier', tier(), '--seed', seed(), '--shards', NCPU, '--out', sdir, '--stress-only', '1'], timeout=7200)
-        sgen = json.loads(p.stdout.strip().splitlines()[-1])
+        p = nvh(['worker-order', '--tier', tier(), '--seed', seed(), '--shards', NCPU, '--out', sdir, '--stress-only', '1'], timeout=7200, check=False)
+        scrashed = None
+        if p.returncode != 0:
+            mk = os.path.join(sdir, 'current.json')
+            scrashed = json.load(open(mk)) if os.path.exists(mk) else {'what': 'unknown'}
+            scrashed['stderr'] = p.stderr[-600:]
+            sgen = {'records': None}
+        else:
+            sgen = json.loads(p.stdout.strip().splitlines()[-1])
         sfiles = [f for f in sorted(glob.glob(os.path.join(sdir, 'worker-*.ndjson'))) if os.path.getsize(f) > 0]
         souts = run_shards('WorkerOrder.tla', sfiles, {}, timeout=7000 if thorough else 1500, xmx='6g')
         stot, swant, sj = {'runs': 0, 'matches': 0}, {}, {}
@@ -145,7 +152,10 @@ def main(prop):
                     stot['runs'] += j['stat']['runs']; stot['matches'] += j['stat']['matches']
                 elif j.get('ev') == 'JUDGE':
                     swant.setdefault(f, set()).add(j['id']); sj[(f, j['id'])] = j
-        if stot['runs'] != sgen['records']:
+        if scrashed:
+            violations.append(({'kind': 'worker-order-crash', 'property': prop, 'clauses': ['library_panicked'], 'run': scrashed, 'seed': seed(), 'tier': tier()},
+                               'library_panicked (process aborted) during %s over %s items, %s threads' % (scrashed.get('what'), scrashed.get('n'), scrashed.get('threads'))))
+        elif stot['runs'] != sgen['records']:
             die_tool('scale stage record count mismatch: harness %d, TLC %d' % (sgen['records'], stot['runs']))
         srecs = fetch_records(swant)
         for key, j in sorted(sj.items(), key=lambda x: x[0][1]):
